@@ -291,6 +291,7 @@ Definition listen_sockaddr (tbl : list iface) (proto : Z) (ip : bytes) (port : Z
      rt ip|tcp|udp|unix … (arguments of na2sa)          -> obs sa <sockaddr> ; obs na <netaddr>   (there and back)
      rts tcp|udp <sockaddr>                             -> obs na <netaddr> ; obs sa <sockaddr>   (back and there)
      lsa <proto 0|4|6> <xip> <port> <xzone>             -> obs lsa <family> <v6only> <sockaddr> | obs lsa err
+     int <scenario>                                     (no obs) live-server scenario, judged by the driver's oracle
    <sockaddr> ::= nil | sa4 <port> <xaddr> | sa6 <port> <zone> <xaddr> | unix <xname> | other
    <netaddr>  ::= nil | tcp <xip> <port> <xzone> | udp … | unix <xname> <xnet> *)
 Open Scope string_scope.
@@ -410,6 +411,7 @@ Definition sockaddr_line (tbl : list iface) (l : line) : list line :=
           end
       | None => unknown
       end
+  | ("int", _) => []     (* live-server scenario of the driver: oracle only, nothing to predict *)
   | ("lsa", [AInt proto; ABytes ip; AInt p; ABytes z]) =>
       match listen_sockaddr tbl proto ip p z with
       | Some (fam, sa, v6only) => [obs "lsa" ([AInt fam; bool_arg v6only] ++ sa_args (Some sa))%list]
